@@ -34,6 +34,7 @@ type Program struct {
 	funcs        map[string]*ssa.Function
 	implCache    map[*types.Interface][]types.Type
 	loadSeconds  float64
+	ghostCache   map[*ssa.Function]*ghostSet
 }
 
 var repoModulePrefixes = []string{"github.com/formancehq/ledger", "github.com/formancehq/stack/libs/go-libs"}
